@@ -14,6 +14,7 @@ import TonVerif.Drv.Message
 import TonVerif.Drv.Tlb
 import TonVerif.Drv.Sig
 import TonVerif.Drv.Heap
+import TonVerif.Drv.Address
 
 open TonVerif TonVerif.Drv
 
@@ -28,6 +29,7 @@ def handlers : List (String → List String → Option String) := [
   Sig.handle?,
   Adnl.handle?
   Heap.handle?
+  Address.handle?
 ]
 
 def handle (op : String) (args : List String) : String :=
